@@ -153,9 +153,37 @@ package semantic
 //@ pure func wfTh1(x *parser.Thrift) bool { return (forall i int :: 0 <= i && i < len(x.Enums) ==> x.Enums[i] != nil) && (forall i int :: 0 <= i && i < len(x.Typedefs) ==> x.Typedefs[i] != nil && x.Typedefs[i].Type != nil && (x.Typedefs[i].Type.Reference != nil ==> 0 <= x.Typedefs[i].Type.Reference.Index && x.Typedefs[i].Type.Reference.Index < len(x.Includes))) && (forall i int :: 0 <= i && i < len(x.Includes) ==> x.Includes[i] != nil && x.Includes[i].Reference != nil) && len(x.Includes) <= 2147483647 && (forall n string :: inDom(x.Name2Category, n) && x.Name2Category[n] == parser.Category_Enum ==> exists k int :: 0 <= k && k < len(x.Enums) && x.Enums[k].Name == n) && (forall n string :: inDom(x.Name2Category, n) && x.Name2Category[n] == parser.Category_Typedef ==> exists k int :: 0 <= k && k < len(x.Typedefs) && x.Typedefs[k].Alias == n) }
 //@ pure func wfThs() bool { return forall x *parser.Thrift :: x != nil ==> wfTh1(x) }
 
+//@ pure func inEnums(a *parser.Thrift, e *parser.Enum) bool { return exists k int :: 0 <= k && k < len(a.Enums) && a.Enums[k] == e }
+
 //@ func getEnum(ast *parser.Thrift, name string) (enum *parser.Enum, includeIndex int32)
 //@   requires ast != nil && wfThs()
 //@   ensures enum == nil ==> includeIndex == -1
 //@   ensures includeIndex == -1 || (0 <= includeIndex && includeIndex < len(ast.Includes))
 //@   ensures !inDom(ast.Name2Category, name) ==> enum == nil
 //@   ensures inDom(ast.Name2Category, name) && ast.Name2Category[name] == parser.Category_Enum ==> enum != nil && enum.Name == name && includeIndex == -1
+//@   ensures enum != nil && includeIndex == -1 ==> inEnums(ast, enum)
+//@   ensures enum != nil && includeIndex >= 0 ==> inEnums(ast.Includes[includeIndex].Reference, enum)
+
+// ---- constant identifiers (C05): the recorded binding denotes the constant or enum value the identifier names ----
+// A binding is read by its consumers (generator/golang Resolver.getIDValue, plugins) as: go to the file itself
+// (Index == -1) or to include number Index; there look up the constant Name, or the enum called Sel and its value Name.
+
+//@ pure func wfCV1(x *parser.ConstValue) bool { return ((x.Type == parser.ConstType_ConstIdentifier || x.Type == parser.ConstType_ConstList || x.Type == parser.ConstType_ConstMap) ==> x.TypedValue != nil) && (x.TypedValue != nil ==> (forall i int :: 0 <= i && i < len(x.TypedValue.List) ==> x.TypedValue.List[i] != nil) && (forall i int :: 0 <= i && i < len(x.TypedValue.Map) ==> x.TypedValue.Map[i] != nil && x.TypedValue.Map[i].Key != nil && x.TypedValue.Map[i].Value != nil)) }
+//@ pure func wfCVs() bool { return forall x *parser.ConstValue :: x != nil ==> wfCV1(x) }
+//@ pure func wfEnumsG() bool { return forall e *parser.Enum :: e != nil ==> forall j int :: 0 <= j && j < len(e.Values) ==> e.Values[j] != nil }
+//@ pure func astAt(a *parser.Thrift, i int32) *parser.Thrift { return ite(i == -1, a, a.Includes[i].Reference) }
+//@ pure func hasEnumValue(a *parser.Thrift, sel string, name string) bool { return exists k int; j int :: 0 <= k && k < len(a.Enums) && a.Enums[k].Name == sel && 0 <= j && j < len(a.Enums[k].Values) && a.Enums[k].Values[j].Name == name }
+//@ pure func isConstName(a *parser.Thrift, name string) bool { return inDom(a.Name2Category, name) && a.Name2Category[name] == parser.Category_Constant }
+//@ pure func denotes(a *parser.Thrift, x *parser.ConstValueExtra) bool { return (x.Index == -1 || (0 <= x.Index && x.Index < len(a.Includes))) && ite(x.IsEnum, hasEnumValue(astAt(a, x.Index), x.Sel, x.Name), isConstName(astAt(a, x.Index), x.Name)) }
+//@ pure func refsOK(a *parser.Thrift, ref []*parser.ConstValueExtra) bool { return forall i int :: 0 <= i && i < len(ref) ==> ref[i] != nil && denotes(a, ref[i]) }
+//@ pure func ident(t *parser.ConstValue) string { return ite(t.TypedValue.Identifier != nil, *t.TypedValue.Identifier, "") }
+
+//@ func (r *resolver) ResolveConstValue(t *parser.ConstValue) (err error)
+//@   requires wfResolver(r) && wfThs() && wfCVs() && wfEnumsG() && t != nil
+//@   ensures err == nil && t.Type == parser.ConstType_ConstIdentifier && ident(t) != "true" && ident(t) != "false" ==> t.Extra != nil && denotes(r.ast, t.Extra)
+//@   modifies parser.ConstValue.Extra, parser.Include.Used
+//@   loop 1 invariant err == nil && refsOK(r.ast, ref)
+//@   loop 1.1 invariant err == nil && refsOK(r.ast, ref)
+//@   loop 1.2 invariant err == nil && refsOK(r.ast, ref)
+//@   loop 1.3 invariant err == nil && refsOK(r.ast, ref)
+//@   loop 1.3.1 invariant err == nil && refsOK(r.ast, ref)
